@@ -151,3 +151,30 @@ Theorem c13_code_check_wpa_handshake_any_surroundings : forall M b a hl ty rho,
 Proof. exact code_check_wpa_handshake_any_surroundings. Qed.
 Print Assumptions c13_code_check_wpa_handshake_any_surroundings.
 
+
+(* ieee80211_radiotap_iterator_init AS TRANSLATED, the whole routine (Proofs/CodeRadiotapInit.v), in ANY memory that holds the
+   header buffer and with any fuel from 60 + 8 * length on: the run RETURNS - it never reads outside the buffer, never overflows,
+   the loop over the extended present words ends - with 0 exactly when Model/Radiotap.v rt_init accepts the header and with the
+   model's negative code otherwise; what lies around the buffer has no influence. *)
+From Coq Require Import String.
+From LW Require Import Base.Bytes Base.CExpr Gen.Layout Gen.Sites Spec.CodeSpec Model.Radiotap Proofs.MemExt Proofs.CodeRadiotapInit.
+Local Open Scope string_scope.
+Local Open Scope list_scope.
+Local Open Scope Z_scope.
+Theorem c13_code_rtinit_any_surroundings : forall M buf h rho vns rns F,
+  mem_agrees M h buf ->
+  wfbytes buf -> 0 < h -> h + zlen buf < 2 ^ 62 -> zlen buf < 2 ^ 31 ->
+  rho "max_length" = zlen buf -> rho "radiotap_header" = h ->
+  (1 <= zlen buf -> rho "radiotap_header->it_version" = znth buf 0) ->
+  rho "&radiotap_header->it_len" = h + off_ieee80211_radiotap_header__it_len ->
+  rho "&radiotap_header->it_present" = h + off_ieee80211_radiotap_header__it_present ->
+  rho "vns" = vns -> rho "&radiotap_ns" = rns -> 0 <= vns < 2 ^ 64 -> 0 <= rns < 2 ^ 64 ->
+  (60 + 8 * Z.to_nat (zlen buf) <= F)%nat ->
+  exists v rho1 tr1, exec F M rho [] body_ieee80211_radiotap_iterator_init = Returned (Some v) rho1 tr1 /\
+    match rt_init (rd_strict buf) (zlen buf) with
+    | Done (Err c) => v = c
+    | Done (Ok _) => v = 0
+    | _ => False
+    end.
+Proof. exact code_rtinit_returns_model_anywhere. Qed.
+Print Assumptions c13_code_rtinit_any_surroundings.
